@@ -167,3 +167,41 @@ CHECKS.update({
         "note": "crossings of one MultiCrossBlock are generated disjoint (Merge documents distinct crossing factors); Repeat constraints never contain Exclude",
     },
 })
+
+CHECKS.update({
+    "C05": {
+        "technique": "exact draw-tree enumeration: the random module seen by RandomGen is scripted and ALL sequences of randrange outcomes of one candidate are explored with Fraction probabilities; Hypothesis generates the designs",
+        "text": ("For generated designs whose complete draw tree has at most 4000 (thorough 40000) leaves, RandomGen.sample(block, 1) is re-run for every script of randrange outcomes; "
+                 "leaf probabilities must sum to 1 (self-check), every accepted candidate must be a valid sequence, every valid sequence must be reachable, and probability mass divided by the "
+                 "reference multiplicity must be identical for all sequences - exact uniformity of one requested sample, not a statistical test. Sampled designs, exhaustive per design."),
+        "note": REFNOTE + "trusts random.randrange to be uniform; open findings F09a, F09b, F10 (non-uniform leftover rounds), F12 excluded by shape",
+    },
+    "C18": {
+        "technique": "Hypothesis-generated construction histories over a pool of shared factor/constraint objects; differential comparison with twins built from fresh objects",
+        "text": ("2-4 blocks (CrossBlocks with different crossings, then optionally Repeat/Merge/Nest over earlier ones) are built in generated order from ONE set of factor and constraint "
+                 "objects; afterwards every block is compared with a twin built from fresh objects: trial count, exhausted multiset of the compiled formula, mismatch verdicts on the twin's "
+                 "sequences and trial-swapped variants. No reference model. Sampled histories."),
+        "note": "the history is a Hypothesis-drawn list of constructions (one shrinkable value) rather than a RuleBasedStateMachine because rule arguments do not depend on earlier results",
+    },
+    "C19": {
+        "technique": "Hypothesis-generated call histories (3-8 library calls) on one block with optional continuous factors; snapshot invariant after every step; reference validity of every synthesize result",
+        "text": ("Histories of synthesize_trials (4 strategies), print_experiments, tabulate_experiments, save_experiments_csv, experiments_to_tuples/dicts and sample_mismatch_experiment "
+                 "on one block: after every step the block's structural snapshot (design, orig/act design, crossings, continuous factors, trial count, constraints, variable count) must be "
+                 "unchanged, every later synthesize must succeed, return valid sequences and the same columns as the first. Sampled histories."),
+        "note": REFNOTE + "an exception from a non-synthesizing call is recorded as a class, not judged",
+    },
+    "C22": {
+        "technique": "Hypothesis generator of continuous-factor specs (distributions, pure catalogue functions, windows, cumulative, constraints) on top of discrete designs; recomputation oracle from the returned values",
+        "text": ("Per returned sequence: one numeric value per trial per continuous factor, every ContinuousConstraint true at every trial, each derived continuous value equal to the catalogue "
+                 "function applied to the returned same-trial values and to the documented ContinuousFactorWindow (all NaN before start / on skipped strides, single NaN for negative indices), "
+                 "cumulative sums per experiment, and the discrete part valid per the reference. Sampled; 4 strategies."),
+        "note": REFNOTE + "catalogue functions are pure and NaN-aware; relative tolerance 1e-9",
+    },
+    "C29": {
+        "technique": "Hypothesis generator of single-crossing designs and of 1-3-design histories run with SMGen in one forked, killable child per case; timer threshold as schedule dimension; reference validity oracle",
+        "text": ("SMGen either raises its unsupported-feature error (counted) or every returned sequence must satisfy the reference validity predicate including the trial count; histories of "
+                 "several designs in one process exercise its module-global state, EXEC_TH in {default, 0.05 s, 0.001 s} moves the timer before/during/after the search. Other exceptions "
+                 "and time-outs are classes, not verdicts. Sampled."),
+        "note": REFNOTE + "interleavings limited to when the timer fires; a child that does not answer in time is inconclusive",
+    },
+})
